@@ -30,6 +30,7 @@ Mk(f, sch, d, nv, unk) == [files |-> f, sched |-> sch, deps |-> d, never |-> nv,
 \* --- C08: every list shape x every postponement schedule -------------------
 C08Of(n, F, maxp) == {Mk(f, sch, NoDeps(n), {}, {}) : f \in F, sch \in [1..n -> 0..maxp]}
 C08Full(u)  == UNION {C08Of(n, Files1(n), 2) : n \in 0..4} \cup UNION {C08Of(n, Files2(n), 2) : n \in 1..3}
+C08Mc(u)    == UNION {C08Of(n, Files1(n), 2) : n \in 0..3} \cup UNION {C08Of(n, Files2(n), 2) : n \in 1..2}
 C08Small(u) == UNION {C08Of(n, Files1(n) \cup Files2(n), 2) : n \in 0..3}
 
 \* --- C09: every dependency structure (no self loops: that is `never`) -------
@@ -37,12 +38,13 @@ DepsOf(n) == {d \in [1..n -> SUBSET (1..n)] : \A i \in 1..n : i \notin d[i]}
 LayoutsAll(n) == {<<OneList(1, n)>>, <<Singles(1, n)>>, <<Mixed(1, n)>>}
                  \cup {<<OneList(1, k), Singles(k + 1, n)>> : k \in 0..n}
                  \cup {<<Singles(1, k), Mixed(k + 1, n)>> : k \in 0..n}
-LayoutsFew(n) == {<<Mixed(1, n)>>} \cup {<<Singles(1, k), OneList(k + 1, n)>> : k \in {1, n \div 2}}
-                 \cup {<<OneList(1, k), Singles(k + 1, n)>> : k \in {n - 1}}
+LayoutsFew(n)  == {<<Mixed(1, n)>>, <<Singles(1, n \div 2), OneList(n \div 2 + 1, n)>>}
+LayoutsMore(n) == LayoutsFew(n) \cup {<<OneList(1, 1), Singles(2, n)>>, <<Mixed(1, n - 1), Singles(n, n)>>}
 C09Of(n, L, NV) == {Mk(f, NoSched(n), d, nv, {}) : f \in L, d \in DepsOf(n), nv \in NV}
 C09Small(u) == UNION {C09Of(n, LayoutsAll(n), SUBSET (1..n)) : n \in 0..3}
+C09Mc(u)    == UNION {C09Of(n, LayoutsFew(n), SUBSET (1..n)) : n \in 0..3}
 C09Four(u)  == C09Of(4, LayoutsFew(4), {{}})
-C09FourNever(u) == C09Of(4, LayoutsFew(4), SUBSET (1..4))
+C09FourNever(u) == C09Of(4, LayoutsMore(4), SUBSET (1..4))
 \* schedules, dependencies, never-resolving and unknown references together
 MixedSmall(u) == UNION {{Mk(f, sch, d, nv, unk) : f \in {<<Mixed(1, n)>>, <<Singles(1, 1), Mixed(2, n)>>},
                         sch \in [1..n -> 0..1], d \in DepsOf(n), nv \in SUBSET (1..n),
@@ -60,6 +62,8 @@ ScCode(s)  == LET n == NOf(s)
 Family(name) ==
   CASE name = "c08"      -> C08Full(0)
     [] name = "c08small" -> C08Small(0)
+    [] name = "c08mc"    -> C08Mc(0)
+    [] name = "c09mc"    -> C09Mc(0)
     [] name = "c09small" -> C09Small(0)
     [] name = "c09four"  -> C09Four(0)
     [] name = "c09never" -> C09FourNever(0)
